@@ -18,6 +18,8 @@ enum Setup {
     DirectM,
     DirectD,
     StreamM,
+    /// stream-polled by a consumer that lags behind (outputs stay queued while actions happen)
+    StreamLag,
     EagerM,
     /// the same script program through the legacy capability API, the command API and directly
     LegacyLockstep,
@@ -31,6 +33,9 @@ enum Setup {
     AllWithBridges,
     /// typed core twin + the four bridges
     Bridges,
+    /// half-migrated app: capability futures awaited inside Command tasks, next to a pure
+    /// command-API twin
+    Mixed,
 }
 
 impl Setup {
@@ -39,6 +44,7 @@ impl Setup {
             Setup::DirectM => "DirectM",
             Setup::DirectD => "DirectD",
             Setup::StreamM => "StreamM",
+            Setup::StreamLag => "StreamLag",
             Setup::EagerM => "EagerM",
             Setup::LegacyLockstep => "LegacyLockstep",
             Setup::Nested => "Nested",
@@ -48,6 +54,7 @@ impl Setup {
             Setup::AllTyped => "AllTyped",
             Setup::AllWithBridges => "AllWithBridges",
             Setup::Bridges => "Bridges",
+            Setup::Mixed => "Mixed",
         }
     }
     fn from_name(s: &str) -> Setup {
@@ -55,6 +62,7 @@ impl Setup {
             Setup::DirectM,
             Setup::DirectD,
             Setup::StreamM,
+            Setup::StreamLag,
             Setup::EagerM,
             Setup::LegacyLockstep,
             Setup::Nested,
@@ -64,6 +72,7 @@ impl Setup {
             Setup::AllTyped,
             Setup::AllWithBridges,
             Setup::Bridges,
+            Setup::Mixed,
         ] {
             if x.name() == s {
                 return x;
@@ -72,7 +81,7 @@ impl Setup {
         panic!("unknown setup {s}")
     }
     fn core_only(self) -> bool {
-        matches!(self, Setup::CoreM | Setup::CoreD | Setup::Legacy | Setup::Bridges)
+        matches!(self, Setup::CoreM | Setup::CoreD | Setup::Legacy | Setup::Bridges | Setup::Mixed)
     }
 }
 
@@ -121,6 +130,10 @@ fn make_hosts(setup: Setup, program: &Cmd, rng: &mut Rng, max_layers: usize) -> 
             vec![HostSlot::new(Box::new(StreamHost::<m::Effect>::new()), 0)],
             vec![Mode::DIRECT],
         ),
+        Setup::StreamLag => (
+            vec![HostSlot::new(Box::new(StreamHost::<m::Effect>::lagging()), 0)],
+            vec![Mode::DIRECT],
+        ),
         Setup::EagerM => (
             vec![HostSlot::new(Box::new(EagerHost::<m::Effect>::new()), 0)],
             vec![Mode::DIRECT],
@@ -155,6 +168,7 @@ fn make_hosts(setup: Setup, program: &Cmd, rng: &mut Rng, max_layers: usize) -> 
                 HostSlot::new(Box::new(Direct::<m::Effect>::new()), 0),
                 HostSlot::new(Box::new(StreamHost::<d::Effect>::new()), 0),
                 HostSlot::new(Box::new(EagerHost::<m::Effect>::new()), 0),
+                HostSlot::new(Box::new(StreamHost::<m::Effect>::lagging()), 0),
                 nested(rng, 1, false),
                 nested(rng, 1, true),
                 HostSlot::new(Box::new(CoreHost::<AppM>::new(false)), 2),
@@ -185,6 +199,13 @@ fn make_hosts(setup: Setup, program: &Cmd, rng: &mut Rng, max_layers: usize) -> 
             ],
             vec![Mode::CORE],
         ),
+        Setup::Mixed => (
+            vec![
+                HostSlot::new(Box::new(CoreHost::<AppD>::mixed()), 0),
+                HostSlot::new(Box::new(CoreHost::<AppM>::new(false)), 1),
+            ],
+            vec![Mode::MIXED, Mode::CORE],
+        ),
     }
 }
 
@@ -205,7 +226,7 @@ fn plan_for(prop: &str, thorough: bool) -> Plan {
     let steps = if thorough { (4, 60) } else { (3, 30) };
     match prop {
         "C01" => Plan {
-            setups: vec![(Setup::CoreM, 4), (Setup::CoreD, 4), (Setup::Legacy, 3)],
+            setups: vec![(Setup::CoreM, 4), (Setup::CoreD, 4), (Setup::Legacy, 3), (Setup::Mixed, 2)],
             gen: GenCfg { event_then: true, ..base },
             steps,
             cases: (40_000, 20_000_000),
@@ -219,6 +240,7 @@ fn plan_for(prop: &str, thorough: bool) -> Plan {
                 (Setup::CoreD, 2),
                 (Setup::Legacy, 2),
                 (Setup::Bridges, 3),
+                (Setup::Mixed, 2),
             ],
             gen: GenCfg { script_weight: 15, ..base },
             steps: if thorough { (6, 60) } else { (6, 40) },
@@ -228,7 +250,7 @@ fn plan_for(prop: &str, thorough: bool) -> Plan {
             rule: "random programs with many simultaneously outstanding one-shot, stream and notification requests x histories with out-of-order, repeated and late resolutions, on the typed path (Request::resolve, Core::resolve), the legacy futures and the serialized bridges; every resolution carries a unique value so the event identifies the continuation that ran; non-trivial = at least 3 steps, 2 effects, 1 event; distinct = hash of (program, history)",
         },
         "C03" => Plan {
-            setups: vec![(Setup::CoreM, 4), (Setup::CoreD, 3), (Setup::Legacy, 3)],
+            setups: vec![(Setup::CoreM, 4), (Setup::CoreD, 3), (Setup::Legacy, 3), (Setup::Mixed, 2)],
             gen: GenCfg { event_then: true, script_weight: 30, ..base },
             steps,
             cases: (40_000, 20_000_000),
@@ -237,7 +259,7 @@ fn plan_for(prop: &str, thorough: bool) -> Plan {
             rule: "script-heavy random programs emitting bursts of events through Core; non-trivial = at least 3 core calls, 2 effects and 1 event; distinct = hash of (program, history)",
         },
         "C04" => Plan {
-            setups: vec![(Setup::DirectM, 5), (Setup::DirectD, 3), (Setup::StreamM, 3), (Setup::EagerM, 2)],
+            setups: vec![(Setup::DirectM, 5), (Setup::DirectD, 3), (Setup::StreamM, 3), (Setup::StreamLag, 2), (Setup::EagerM, 2)],
             gen: base,
             steps,
             cases: (60_000, 30_000_000),
@@ -255,7 +277,7 @@ fn plan_for(prop: &str, thorough: bool) -> Plan {
             rule: "one program and one history on up to 8 hosts in lock-step (direct, stream-polled, 1-10 neutral wrapper layers, Core via both macros, bincode and JSON bridges); non-trivial = at least 3 steps, 2 effects and 1 event; distinct = hash of (program, history)",
         },
         "C06" => Plan {
-            setups: vec![(Setup::DirectM, 4), (Setup::StreamM, 2), (Setup::EagerM, 1), (Setup::AllTyped, 3)],
+            setups: vec![(Setup::DirectM, 4), (Setup::StreamM, 2), (Setup::StreamLag, 2), (Setup::EagerM, 1), (Setup::AllTyped, 3)],
             gen: GenCfg { script_weight: 20, ..base },
             steps,
             cases: (30_000, 12_000_000),
@@ -264,7 +286,7 @@ fn plan_for(prop: &str, thorough: bool) -> Plan {
             rule: "random programs with abort handles and task aborts x histories biased to abort/drop/late resolution; non-trivial = at least one abort or drop followed by a later action, 2 effects; distinct = hash of (program, history)",
         },
         "C07" => Plan {
-            setups: vec![(Setup::DirectM, 5), (Setup::DirectD, 2), (Setup::StreamM, 3), (Setup::EagerM, 1)],
+            setups: vec![(Setup::DirectM, 5), (Setup::DirectD, 2), (Setup::StreamM, 3), (Setup::StreamLag, 1), (Setup::EagerM, 1)],
             gen: GenCfg { script_weight: 30, ..base },
             steps,
             cases: (60_000, 30_000_000),
@@ -336,8 +358,15 @@ fn main() {
     for case_no in 0..n {
         let mut rng = Rng::derive(seed, case_no, 0);
         let state = rng.state();
-        let setup = plan.setups[rng.weighted(&weights)].0;
+        let mut setup = plan.setups[rng.weighted(&weights)].0;
+        if let Some(forced) = args.extra.get("setup") {
+            // development aid: explore one setup only
+            setup = Setup::from_name(forced);
+        }
         let mut gen_cfg = plan.gen.clone();
+        if setup == Setup::Mixed {
+            gen_cfg.script_weight = gen_cfg.script_weight.max(30);
+        }
         gen_cfg.legacy = setup == Setup::Legacy || setup == Setup::LegacyLockstep;
         if !setup.core_only() {
             gen_cfg.event_then = false;
@@ -371,7 +400,7 @@ fn main() {
         if cfg.stream_bias {
             cfg.max_steps = cfg.max_steps.max(24);
         }
-        if matches!(setup, Setup::DirectM | Setup::DirectD | Setup::StreamM) && rng.chance(1, 6) {
+        if matches!(setup, Setup::DirectM | Setup::DirectD | Setup::StreamM | Setup::StreamLag) && rng.chance(1, 6) {
             let k = rng.range(1, 2);
             for i in 0..k {
                 let mut gc = GenCfg::quick();
@@ -410,6 +439,7 @@ fn main() {
                 r.count("is_done_not_compared_cancellation_sweep_pending", s.done_unknown as u64);
                 r.count("held_value_checks", s.holds_checked as u64);
                 r.count("host_runs", hosts.len() as u64);
+                r.count("steps_with_outputs_left_queued_by_a_lagging_consumer", s.lagged_steps as u64);
                 if outcome.pre_abort.is_some() {
                     r.count("aborts_before_first_poll", 1);
                 }
